@@ -201,7 +201,7 @@ def _c16_ids(name):
     return lab in ("IG1", "IG2", "IG3", "SK1") or lab.startswith("gen.") or lab.startswith("skip.") or lab.endswith("IdGenerator::gen.safety") or "skip" in lab
 
 
-prop("C16", ["toposort", "rq_tables", "ids_names", "lower_cols", "rq_shape", "lineage_except", "rq_fold", "flatten_sort", "table_instance", "pl_fold", "lower_expr", "lower_ident", "anchor_names", "ident_kinds"], select={"ident_kinds": lambda n: n.split(".", 1)[1] in ("IK1", "IK2", "IK5") or n.endswith(".safety"), "anchor_names": lambda n: n.split(".", 1)[1] in ("RC1", "LN2", "EN1") or n.endswith(".safety"), "ids_names": _c16_ids, "flatten_sort": lambda n: n.split(".", 1)[1] in ("FO1", "FO2", "FT1", "FT3", "flatten_other_arm.safety")},
+prop("C16", ["toposort", "rq_tables", "ids_names", "lower_cols", "rq_shape", "lineage_except", "rq_fold", "flatten_sort", "table_instance", "pl_fold", "lower_expr", "lower_ident", "anchor_names", "ident_kinds"], select={"ident_kinds": lambda n: n.split(".", 1)[1] in ("IK1", "IK2", "IK5", "FR1", "FR3") or n.endswith(".safety"), "anchor_names": lambda n: n.split(".", 1)[1] in ("RC1", "LN2", "EN1") or n.endswith(".safety"), "ids_names": _c16_ids, "flatten_sort": lambda n: n.split(".", 1)[1] in ("FO1", "FO2", "FT1", "FT3", "flatten_other_arm.safety")},
      not_covered="visibility of ids across joins / sub-pipelines (redirect_mappings over node_mapping: HashMap<usize, LoweredTarget>), lower_expr, "
                  "how push_select collects its columns, the rest of create_a_table_instance (which declaration it reads: table_instance TI1); toposort()'s Key->index map and driver loop")
 claim("C16",
@@ -216,7 +216,7 @@ claim("C16",
       "every used id at its point of use (cid redirection through hash maps), select arity.",
       "toposort()'s HashMap index / outer loop, lower_table_decl and the Lowerer's node_mapping are not under contract.")
 
-prop("C13", ["span_units", "compose_errors", "span_frame", "lower_expr"], select={"lower_expr": lambda n: n.split(".", 1)[1] in ("LS1",)},
+prop("C13", ["span_units", "compose_errors", "span_frame", "lower_expr", "ident_kinds"], select={"ident_kinds": lambda n: n.split(".", 1)[1] in ("FR2",), "lower_expr": lambda n: n.split(".", 1)[1] in ("LS1",)},
      not_covered="ariadne rendering (the quoted line), multi-file source ids, resolver / SQL-generation errors (their spans are copied from parser spans)")
 claim("C13",
       "PARTIAL. Proved on the real code: convert_lexer_error stores a span in CHARACTER units - the character positions of the byte offsets chumsky "
